@@ -201,15 +201,16 @@ PROPS = {
             "defect of a5-rs (known finding F1: numeric ID order interleaves base-cell IDs with other faces' quintant IDs) and are "
             "replayed on the real code each run",
             "std HashSet / sort_unstable under assumed contracts (rule R5), see C08",
-            "decided: (maximal) the result contains no complete sibling group; (fixed point) on the result of ANY call the sibling "
-            "test fails at every position. Idempotence and canonicity as sets are consequences via the uniqueness of the maximal "
-            "antichain with a given cover; that uniqueness lemma is NOT mechanised (see DESIGN.md) - a bounded stand-in "
-            "(compact_max replay op: normal-form comparison and re-compaction on generated antichains) covers those two sentences",
+            "decided: (maximal) the result contains no complete sibling group; (idempotent, as a set) a list on whose sorted "
+            "enumeration the sibling test fails everywhere is returned as that enumeration, and a maximal list of valid cells is such "
+            "a list in any order (thm_idempotent); (canonical) two maximal non-overlapping lists of valid cells covering the same "
+            "cells are the same set (thm_canonical, mechanised: deepest-descendant argument), composed with compact()'s contract in "
+            "thm_compact_canonical. Idempotence is as a SET: the output list is not sorted when a merge produced a base cell, so "
+            "the second call may return the same cells in another order",
         ],
         "bounded_ops": [
-            {"op": "compact_max", "budget": 400, "what": "idempotence and canonicity (result == unique normal form, recompaction changes "
-             "nothing as a set) on generated non-overlapping inputs of the proved class: bounded stand-in for the non-mechanised "
-             "uniqueness lemma"},
+            {"op": "compact_max", "budget": 400, "what": "cross-check on the real code (bounded, not counted): result == unique normal "
+             "form and recompaction changes nothing as a set, on generated non-overlapping inputs of the proved class"},
         ],
         "search_ops": ["compact_max"],
         "level_text": "Unbounded proof (Verus/Z3) on the real compact(): invariant 'the working list is ordered by leaf intervals' "
